@@ -71,6 +71,8 @@ type xferSpec struct {
 	WriteGap       time.Duration // Interleave: pause between rounds
 	NoSackComplete bool
 	BeforeClose    func(m *Sim, r *xferResult)
+	OnSendStream   func(m *Sim, st streamSpec, s *Stream)
+	WriteTimeout   time.Duration // blocking-write mode: SetWriteDeadline before each write
 	ReaderDone     func(m *Sim, sid uint16)
 }
 
@@ -236,7 +238,19 @@ func xferScenario(spec *xferSpec, res *xferResult) *Scenario {
 					s.SetReliabilityParams(ms.Rel.Unordered, ms.Rel.Type, ms.Rel.Val)
 				}
 				data := payload(st.SID, i, ms.Size)
+				if spec.WriteTimeout > 0 {
+					_ = s.SetWriteDeadline(time.Now().Add(spec.WriteTimeout))
+				}
+				mu.Lock()
+				m.inWrite[s] = ms.Size
+				mu.Unlock()
 				n, err := s.WriteSCTP(data, ms.PPI)
+				mu.Lock()
+				delete(m.inWrite, s)
+				if err == nil {
+					m.wroteBytes[s] += n
+				}
+				mu.Unlock()
 				m.Logf(fmt.Sprintf("write sid=%d #%d len=%d ppi=%d", st.SID, i, ms.Size, ms.PPI), "n=%d err=%v", n, err)
 				mu.Lock()
 				res.Written[st.SID] = append(res.Written[st.SID], wroteMsg{Idx: i, Data: string(data), PPI: ms.PPI, Err: err, At: m.S.Now()})
@@ -253,6 +267,9 @@ func xferScenario(spec *xferSpec, res *xferResult) *Scenario {
 				m.streamsSeen = append(m.streamsSeen, s)
 				mu.Unlock()
 				s.SetReliabilityParams(st.Unordered, st.RelType, st.RelVal)
+				if spec.OnSendStream != nil {
+					spec.OnSendStream(m, st, s)
+				}
 				return s
 			}
 			if spec.Interleave {
